@@ -358,3 +358,87 @@ def C_STD_FROM_ITER(body, ctx):
         body = body[:m.start()] + '%s(%s)' % (fn, body[m.end():pc].strip()) + body[pc + 1:]
         n += 1
     return body, n
+
+
+# --------------------------------------------------------------------------------------------
+# Vec::into_iter() [.zip(Vec)] .filter_map(closure).collect::<Vec>()
+# --------------------------------------------------------------------------------------------
+
+def _into_iter_filter_map(body, what, zipped):
+    n = 0
+    rx = re.compile(r'\.\s*into_iter\s*\(\s*\)\s*' + (r'\.\s*zip\s*\(' if zipped else r'\.\s*filter_map\s*\(\s*(?=\|)'))
+    start = 0
+    while True:
+        mask = code_mask(body)
+        m = _first(rx, body, mask, start)
+        if not m:
+            break
+        if zipped:
+            zc = match_close(body, m.end() - 1, mask)
+            b = body[m.end():zc].strip()
+            mf = re.match(r'\s*\.\s*filter_map\s*\(\s*(?=\|)', body[zc + 1:])
+            if not mf:
+                start = m.end()     # `zip(..)` feeding another adapter: not this rule's idiom
+                continue
+            if not b or find_top(b, r','):
+                raise LostAnchor('%s: `zip` must have exactly one argument' % what)
+            bar = zc + 1 + mf.end()
+        else:
+            b = None
+            bar = m.end()
+        pat, expr, pc = _closure_arg(body, bar, mask, what)
+        mc = re.match(r'\s*\.\s*collect\s*\(\s*\)', body[pc + 1:])
+        if not mc:
+            start = m.end()
+            continue
+        s = _receiver_start(body, m.start(), mask, what)
+        a = body[s:m.start()].strip()
+        if zipped:
+            new = ('{ let mut a_ = %s; let mut b_ = %s; let mut out_ = Vec::new();\n'
+                   '            while a_.len() > 0 && b_.len() > 0 { let %s = (a_.remove(0), b_.remove(0));\n'
+                   '                let o_ = %s;\n'
+                   '                match o_ { Some(e_) => { out_.push(e_); } None => {} } }\n'
+                   '            out_ }' % (a, b, pat, expr))
+        else:
+            new = ('{ let mut a_ = %s; let mut out_ = Vec::new();\n'
+                   '            while a_.len() > 0 { let %s = a_.remove(0);\n'
+                   '                let o_ = %s;\n'
+                   '                match o_ { Some(e_) => { out_.push(e_); } None => {} } }\n'
+                   '            out_ }' % (a, pat, expr))
+        body = body[:s] + new + body[pc + 1 + mc.end():]
+        start = s
+        n += 1
+    return body, n
+
+
+def C_INTO_ITER_FILTER_MAP_COLLECT_VEC(body, ctx):
+    """`A.into_iter().filter_map(|PAT| BODY).collect()` with A a `Vec`, collected into a `Vec` ->
+    `{ let mut a_ = A; let mut out_ = Vec::new();
+       while a_.len() > 0 { let PAT = a_.remove(0); let o_ = BODY; match o_ { Some(e_) => { out_.push(e_); } None => {} } }
+       out_ }`
+    std: `Vec::into_iter` "Creates a consuming iterator, that is, one that moves each value out of the
+    vector (from start to end)"; Iterator::filter_map "Creates an iterator that both filters and maps.
+    The returned iterator yields only the values for which the supplied closure returns Some(value)";
+    `Vec: FromIterator` keeps the order. `a_.remove(0)` ("Removes and returns the element at position
+    index within the vector, shifting all elements after it to the left") is the front-to-back move;
+    the closure is called once per element, in order, as in the lazy adapter chain driven by
+    `collect`. A, PAT and BODY are re-emitted unchanged; A is moved, as `into_iter` does. If A is not a
+    `Vec` or the result is another collection the output does not type-check (undecided)."""
+    return _into_iter_filter_map(body, 'C_INTO_ITER_FILTER_MAP_COLLECT_VEC', False)
+
+
+def C_INTO_ITER_ZIP_FILTER_MAP_COLLECT_VEC(body, ctx):
+    """`A.into_iter().zip(B).filter_map(|PAT| BODY).collect()` with A, B `Vec`s, collected into a `Vec` ->
+    `{ let mut a_ = A; let mut b_ = B; let mut out_ = Vec::new();
+       while a_.len() > 0 && b_.len() > 0 { let PAT = (a_.remove(0), b_.remove(0)); let o_ = BODY;
+           match o_ { Some(e_) => { out_.push(e_); } None => {} } }
+       out_ }`
+    std, Iterator::zip: "'Zips up' two iterators into a single iterator of pairs ... returns a new
+    iterator that will iterate over two other iterators, returning a tuple where the first element
+    comes from the first iterator, and the second element comes from the second iterator. If either
+    iterator returns None, next from the zipped iterator will return None" (the argument is any
+    IntoIterator: a `Vec` is consumed from start to end). The pair is built BEFORE the closure runs,
+    so the i-th element of A always meets the i-th element of B, whatever the closure returns for
+    earlier pairs. Remaining elements of the longer vector are dropped unobserved. Otherwise as
+    C_INTO_ITER_FILTER_MAP_COLLECT_VEC. A, B, PAT and BODY are re-emitted unchanged."""
+    return _into_iter_filter_map(body, 'C_INTO_ITER_ZIP_FILTER_MAP_COLLECT_VEC', True)
